@@ -1,1 +1,20 @@
 import RaftLogModel.Props.C10
+open RaftLog
+#print axioms c10_encRecord_length_pos
+#print axioms parse_encAll
+#print axioms parse_cut
+#print axioms parse_cut_at
+#print axioms parse_zero_tail
+#print axioms c10_crc32_zeros_ne_zero
+#print axioms c10_clean_open
+#print axioms c10_cut_truncate
+#print axioms c10_zero_truncate
+#print axioms c10_open_truncates_and_creates
+#print axioms c10_open_single_chunk'
+#print axioms c10_open_single_chunk
+#print axioms parseChunk_encAll_append
+#print axioms parseChunk_canon
+#print axioms parseLoop_fuel
+#print axioms decRecord_zeros_eof
+#print axioms decRecord_zeros_invalid
+#print axioms openChunk_of_parse
